@@ -550,7 +550,7 @@ M("c01-inmem-requeue-fix-reverted", ["C01", "C03"], [(MBRK, '''        await asy
         await self.enqueue(key, payload, params)
 ''')], "R-C01-ATOMIC")
 M("c01-inmem-nack-no-dead", ["C01"], [(MBRK, "                q.processing.remove(msg)\n                q.dead.append(msg)\n", "                q.processing.remove(msg)\n")], "R-C01-TRANSFER")
-M("c01-inmem-reject-duplicates", ["C01", "C14"], [(MBRK, "                q.processing.remove(msg)\n                q.simple.put_nowait(msg)\n", "                q.simple.put_nowait(msg)\n")], "R-C01-TRANSFER")
+M("c01-inmem-reject-duplicates", ["C01", "C14"], [(MBRK, "                q.processing.remove(msg)\n                # return the message to where its consumer has taken it from\n", "                # return the message to where its consumer has taken it from\n")], "R-C01-TRANSFER")
 M("c01-inmem-ack-await-in-loop", ["C01"], [(MBRK, '''            if msg.key.id_ == key.id_:
                 q.processing.remove(msg)
                 q.dead.append(msg)''', '''            if msg.key.id_ == key.id_:
@@ -673,3 +673,20 @@ M("c14-holder-not-recorded", ["C14"], [("repid/connections/in_memory/consumer.py
 ''', '''        pass
 ''')], "R-C14-FINISH-OWN")
 M("c14-finish-without-owner-filter", ["C14"], [("repid/connections/in_memory/consumer.py", '''        for msg in [m for m, holder in self._queue.holders.items() if holder is self]:''', '''        for msg in [m for m, holder in self._queue.holders.items()]:''')], "R-C14-FINISH-OWN")
+
+# ----------------------------------------------------------------------------------------------- C01 fix reverted (in-memory reject to source)
+M("c01-fix-reverted-reject-always-waiting", ["C01"], [("repid/connections/in_memory/message_broker.py", '''                category = getattr(q.holders.pop(msg, None), "category", MessageCategory.NORMAL)
+                delay = wait_until(msg.parameters) if category == MessageCategory.DELAYED else None
+                if category == MessageCategory.DEAD:
+                    q.dead.insert(0, msg)
+                elif delay is not None:
+                    q.delayed.setdefault(delay, []).insert(0, msg)
+                else:
+                    q.simple.put_nowait(msg)
+''', '''                q.simple.put_nowait(msg)
+''')], "R-C01-SOURCE")
+M("c01-reject-dead-to-delayed", ["C01"], [("repid/connections/in_memory/message_broker.py", '''                if category == MessageCategory.DEAD:
+                    q.dead.insert(0, msg)
+''', '''                if category == MessageCategory.DEAD:
+                    q.simple.put_nowait(msg)
+''')], "R-C01-SOURCE")
